@@ -8,7 +8,10 @@
      GetValue / SetValue v / SwapValue f   one critical section (Broadcast.HoldLock), then return;
      WaitValue / WaitValueChange old / WaitValueEmpty / WaitValueWithValidator p
         loop { section: sample (val, getWaitCh()) ; validator on the sample (outside the lock) ;
-               select { ctx.Done -> ctx.Err | errCh -> (closed: Canceled | non-nil: that error | nil: loop) | wake -> loop } }
+               select { ctx.Done -> ctx.Err() | errCh -> (closed: the literal context.Canceled | non-nil: that error | nil: loop) | wake -> loop } }
+   The context of a waiter has a FLAVOUR ([cflav], part of the call event): plain WithCancel, ends like a deadline
+   (Err() = DeadlineExceeded) or cancelled with a cause (Err() = Canceled, Cause = another error); the ctx.Done case
+   returns ctx.Err(): [ECanceled] for a plain / with-cause context, [EDeadline] for a deadline-like one ([ctx_err]).
    Gates (schedule points): the entry of every critical section ([PGate], [WGate]) and, for waiters,
    the exit of the sampling section ([WSampled]: the sample is taken, validator and select not yet run),
    so that writes interleave with a waiter's sample-then-block step in every possible way.
@@ -38,7 +41,15 @@ Inductive op := OGet | OSet (v : N) | OSwap (f : swapf).
 Inductive wkind := WValue | WChange (old : N) | WEmpty | WValid (p k : N)
                  | WWatch (cur : N).                 (* one round of WatchChanges: WaitValueChange cur, then the callback *)
 Inductive vres := VNo | VOk | VErr.                 (* validator: (false,nil) | (true,nil) | (_, err) *)
-Inductive errk := ENone | ECanceled | EErrCh | EValid | ECb.   (* ECb: the WatchChanges callback's error *)
+Inductive errk := ENone | ECanceled | EErrCh | EValid | ECb     (* ECb: the WatchChanges callback's error *)
+               | EDeadline.                                  (* context.DeadlineExceeded *)
+(* how the caller's context ends: plain cancel | like a deadline (Err() = DeadlineExceeded) | cancelled with a cause
+   (Err() = Canceled, context.Cause = the cause) *)
+Inductive cflav := CPlain | CDeadline | CCause.
+(* ctx.Err() of an ended context *)
+Definition ctx_err (f : cflav) : errk := match f with CDeadline => EDeadline | _ => ECanceled end.
+Definition is_deadline (f : cflav) : bool := match f with CDeadline => true | _ => false end.
+Definition is_cause (f : cflav) : bool := match f with CCause => true | _ => false end.
 
 Inductive apc :=
 | PGate (o : op)                                    (* at the HoldLock entry gate *)
@@ -50,7 +61,8 @@ Inductive apc :=
 | WCb (w : wkind) (v : N).                          (* WatchChanges: inside the user callback, called with v *)
 
 Record actor := { pc : apc;
-                  ctxc : bool;                      (* its context is cancelled *)
+                  ctxc : bool;                      (* its context has ended *)
+                  flav : cflav;                     (* how its context ends *)
                   hasch : bool;                     (* errCh is non-nil *)
                   errq : list bool;                 (* errors buffered in errCh (true = non-nil error) *)
                   eclosed : bool;                   (* errCh closed *)
@@ -60,7 +72,7 @@ Record actor := { pc : apc;
 Record st := { b : bc; val : N; acts : list actor; vh : list N; lin : list (nat * op) }.
 
 Inductive ev :=
-| Call (o : op) | CallWait (w : wkind) (hc : bool)
+| Call (o : op) | CallWait (w : wkind) (hc : bool) (fl : cflav)
 | Sect (a : nat)                                    (* actor a runs the critical section it is parked in front of *)
 | Eval (a : nat)                                    (* waiter a: validator on its sample, then enter the select or return *)
 | Wake (a : nat) | CancelWake (a : nat) | ErrWake (a : nat)   (* the three select cases *)
@@ -68,18 +80,18 @@ Inductive ev :=
 | CbRet (a : nat) (err : bool).                     (* the callback of watcher a returns (err: a non-nil error) *)
 
 Definition set_pc (x : actor) (p : apc) : actor :=
-  {| pc := p; ctxc := ctxc x; hasch := hasch x; errq := errq x; eclosed := eclosed x; esent := esent x; start := start x |}.
+  {| pc := p; ctxc := ctxc x; flav := flav x; hasch := hasch x; errq := errq x; eclosed := eclosed x; esent := esent x; start := start x |}.
 
 (* next round of a watcher: new pc, [start] := the index of the value held now *)
 Definition set_pc_start (x : actor) (p : apc) (st0 : nat) : actor :=
-  {| pc := p; ctxc := ctxc x; hasch := hasch x; errq := errq x; eclosed := eclosed x; esent := esent x; start := st0 |}.
+  {| pc := p; ctxc := ctxc x; flav := flav x; hasch := hasch x; errq := errq x; eclosed := eclosed x; esent := esent x; start := st0 |}.
 
 (* what a waiter does with a value that satisfies its condition: return it / hand it to the callback *)
 Definition ok_pc (w : wkind) (v : N) : apc :=
   match w with WWatch _ => WCb w v | _ => WRet w v ENone end.
 
-Definition new_actor (p : apc) (hc : bool) (st0 : nat) : actor :=
-  {| pc := p; ctxc := false; hasch := hc; errq := []; eclosed := false; esent := false; start := st0 |}.
+Definition new_actor (p : apc) (hc : bool) (fl : cflav) (st0 : nat) : actor :=
+  {| pc := p; ctxc := false; flav := fl; hasch := hc; errq := []; eclosed := false; esent := false; start := st0 |}.
 
 Section Model.
   Variable eqv : N -> N -> bool.
@@ -125,8 +137,8 @@ Section Model.
 
   Definition step (s : st) (e : ev) : st :=
     match e with
-    | Call o => with_acts s (acts s ++ [new_actor (PGate o) false (length (vh s) - 1)])
-    | CallWait w hc => with_acts s (acts s ++ [new_actor (WGate w) hc (length (vh s) - 1)])
+    | Call o => with_acts s (acts s ++ [new_actor (PGate o) false CPlain (length (vh s) - 1)])
+    | CallWait w hc fl => with_acts s (acts s ++ [new_actor (WGate w) hc fl (length (vh s) - 1)])
     | Sect a =>
       match nth_error (acts s) a with
       | None => s
@@ -173,7 +185,7 @@ Section Model.
       | None => s
       | Some x =>
         match pc x with
-        | WBlocked w v ch => if ctxc x then with_acts s (seta s a (WRet w 0 ECanceled)) else s
+        | WBlocked w v ch => if ctxc x then with_acts s (seta s a (WRet w 0 (ctx_err (flav x)))) else s   (* ctx.Err() *)
         | _ => s
         end
       end
@@ -185,10 +197,10 @@ Section Model.
         | WBlocked w v ch =>
           match errq x with
           | true :: q =>      (* a non-nil error is received: returned *)
-            with_acts s (set_nth (acts s) a {| pc := WRet w 0 EErrCh; ctxc := ctxc x; hasch := hasch x; errq := q;
+            with_acts s (set_nth (acts s) a {| pc := WRet w 0 EErrCh; ctxc := ctxc x; flav := flav x; hasch := hasch x; errq := q;
                                                eclosed := eclosed x; esent := esent x; start := start x |})
           | false :: q =>     (* a nil error is received and dropped: next iteration *)
-            with_acts s (set_nth (acts s) a {| pc := WGate w; ctxc := ctxc x; hasch := hasch x; errq := q;
+            with_acts s (set_nth (acts s) a {| pc := WGate w; ctxc := ctxc x; flav := flav x; hasch := hasch x; errq := q;
                                                eclosed := eclosed x; esent := esent x; start := start x |})
           | [] => if eclosed x then with_acts s (seta s a (WRet w 0 ECanceled)) else s   (* closed: "context canceled" *)
           end
@@ -198,7 +210,7 @@ Section Model.
     | CancelCtx a =>
       match nth_error (acts s) a with
       | None => s
-      | Some x => with_acts s (set_nth (acts s) a {| pc := pc x; ctxc := true; hasch := hasch x; errq := errq x;
+      | Some x => with_acts s (set_nth (acts s) a {| pc := pc x; ctxc := true; flav := flav x; hasch := hasch x; errq := errq x;
                                                      eclosed := eclosed x; esent := esent x; start := start x |})
       end
     | ErrSend a m =>
@@ -206,7 +218,7 @@ Section Model.
       | None => s
       | Some x =>
         if hasch x && negb (eclosed x)
-        then with_acts s (set_nth (acts s) a {| pc := pc x; ctxc := ctxc x; hasch := hasch x; errq := errq x ++ [m];
+        then with_acts s (set_nth (acts s) a {| pc := pc x; ctxc := ctxc x; flav := flav x; hasch := hasch x; errq := errq x ++ [m];
                                                 eclosed := eclosed x; esent := esent x || m; start := start x |})
         else s
       end
@@ -215,7 +227,7 @@ Section Model.
       | None => s
       | Some x =>
         if hasch x
-        then with_acts s (set_nth (acts s) a {| pc := pc x; ctxc := ctxc x; hasch := hasch x; errq := errq x;
+        then with_acts s (set_nth (acts s) a {| pc := pc x; ctxc := ctxc x; flav := flav x; hasch := hasch x; errq := errq x;
                                                 eclosed := true; esent := esent x; start := start x |})
         else s
       end
